@@ -13,6 +13,7 @@ use std::panic::{catch_unwind, AssertUnwindSafe};
 mod c01;
 mod c02;
 mod c06;
+mod c05;
 mod c07;
 mod c09;
 mod c13;
@@ -47,6 +48,7 @@ fn run_case(line: &str) -> String {
     // every module answers for the case kinds it knows
     None.or_else(|| c01::dispatch(kind, &f))
         .or_else(|| c02::dispatch(kind, &f))
+        .or_else(|| c05::dispatch(kind, &f))
         .or_else(|| c06::dispatch(kind, &f))
         .or_else(|| c07::dispatch(kind, &f))
         .or_else(|| c09::dispatch(kind, &f))
